@@ -94,8 +94,10 @@ B = Bounded(
     "(remesh) / at least one point removed or error expected (filter) / bins differ (resample)",
     bound="quick: 3 test reactors (13 assembly designs, as loaded and with 2 seeded height sets) + 20 generated assemblies (<= 9 blocks) x 9 mesh "
     "kinds x 1-2 seeds (~570 remesh cases), 2 reactor-level convert/applyStateToOriginal, ~3500 intervals, 1500 filter cases (<= 25 points), 24 common meshes, 2500 "
-    "resampling cases (<= 8 bins), 400 averaging cases (<= 7 rows), 60 block-mesh changes. thorough: x8-x10 of each (40 generated "
-    "assemblies, 4 seeds per mesh kind, 6 reactor-level conversions). Heights 0.5-80 cm; only hex pin/test-reactor assemblies.",
+    "resampling cases (<= 8 bins), 400 averaging cases (<= 7 rows), 60 block-mesh changes. thorough: 120 generated assemblies and 3 height "
+    "sets per design, 5 seeds per mesh kind (~6500 remesh cases), 12 reactor-level conversions, ~40000 intervals, 40000 filter cases, 400 "
+    "common meshes, 60000 resampling cases, 10000 averaging cases, 1500 block-mesh changes. Heights 0.5-80 cm; only hex pin/test-reactor "
+    "assemblies; target meshes always span exactly the assembly height.",
 )
 RTOL = 1e-9
 MK = um.UniformMeshGeometryConverter.makeAssemWithUniformMesh
@@ -1125,30 +1127,30 @@ def cases():
     T = B.thorough()
     rng = B.rng
     out = []
-    srcs = all_sources(40 if T else 20, [1, 2, 3] if T else [1, 2])
+    srcs = all_sources(120 if T else 20, [1, 2, 3] if T else [1, 2])
     for src in srcs:
         for kind in MESH_KINDS:
-            reps = (4 if T else 1) if kind not in ("identical", "single") else 1
+            reps = (5 if T else 1) if kind not in ("identical", "single") else 1
             if not T and src["kind"] == "reactor" and src.get("hseed") is None and kind in ("finer", "shifted", "near"):
                 reps = 2
             for _ in range(reps):
                 out.append({"part": "remesh", "src": src, "mesh": kind, "mseed": rng.randrange(10 ** 6), "pseed": rng.randrange(10 ** 6)})
-    for k in range(6 if T else 2):
+    for k in range(12 if T else 2):
         out.append({"part": "reactor", "reactor": "full" if k % 2 == 0 else "detailed", "seed": rng.randrange(10 ** 6)})
     for src in srcs:
         out.append({"part": "between", "src": src, "iseed": rng.randrange(10 ** 6), "n": 250 if T else 60})
-    for _ in range(15000 if T else 1500):
+    for _ in range(40000 if T else 1500):
         out.append(filter_case(rng.randrange(10 ** 9)))
     out.append({"part": "filter-badpref", "pref": "middle"})
-    for k in range(200 if T else 24):
+    for k in range(400 if T else 24):
         out.append({"part": "common", "reactor": "full" if k % 2 == 0 else "detailed", "seed": rng.randrange(10 ** 6), "frac": rng.choice([0.0, 0.1, 0.5, 1.0]),
                     "min": rng.choice([None, 0.01, 0.5, 3.0, 3.0, 10.0, 30.0, 60.0])})
-    for _ in range(25000 if T else 2500):
+    for _ in range(60000 if T else 2500):
         out.append(resample_case(rng.randrange(10 ** 9)))
-    for _ in range(4000 if T else 400):
+    for _ in range(10000 if T else 400):
         out.append(avg1d_case(rng.randrange(10 ** 9)))
     bm = [s for s in srcs if s.get("hseed") is None]
-    for k in range(500 if T else 60):
+    for k in range(1500 if T else 60):
         out.append({"part": "blockmesh", "src": bm[k % len(bm)], "seed": rng.randrange(10 ** 6), "mode": ["all", "auto", "none"][k % 3]})
     return out
 
